@@ -169,7 +169,7 @@ func (m *multiDeleteExecutor) buildBeforeImageSQL() (string, []driver.NamedValue
 		}
 
 		var whereBuffer bytes.Buffer
-		if err = restoreUnqualified(deleteParser.Where, format.NewRestoreCtx(format.RestoreKeyWordUppercase, &whereBuffer)); err != nil {
+		if err = restoreUnqualified(deleteParser.Where, deleteParser.TableRefs, m.firstTableRefs(), format.NewRestoreCtx(format.RestoreKeyWordUppercase, &whereBuffer)); err != nil {
 			return "", nil, err
 		}
 
@@ -190,6 +190,16 @@ func (m *multiDeleteExecutor) buildBeforeImageSQL() (string, []driver.NamedValue
 	selectSQL += " FOR UPDATE"
 
 	return selectSQL, params, nil
+}
+
+// firstTableRefs is the table reference the image query is built with (see getFromTableInSQL)
+func (m *multiDeleteExecutor) firstTableRefs() *ast.TableRefsClause {
+	for _, parser := range m.parserCtx.MultiStmt {
+		if parser != nil && parser.DeleteStmt != nil {
+			return parser.DeleteStmt.TableRefs
+		}
+	}
+	return nil
 }
 
 func (m *multiDeleteExecutor) getFromTableInSQL() (string, error) {
